@@ -390,11 +390,14 @@ fn make_exec<P: Property>(p: &P, verif_root: &Path) -> Exec<P> {
 fn minimise<P: Property>(p: &P, exec: &mut Exec<P>, case: P::Case, fallback: Fail, open_sigs: &[String]) -> (P::Case, Fail) {
     let mut case = case;
     let mut budget = 3000usize;
+    // effort limit of the minimiser only (never a verdict): a slow property on a loaded machine must still report
+    let started = Instant::now();
+    let max_s: u64 = std::env::var("VERIF_MINIMISE_S").ok().and_then(|s| s.parse().ok()).unwrap_or(120);
     // only candidates failing with the SAME signature are taken, so minimisation cannot slide into another defect
     let want = fallback.sig.clone();
     'outer: loop {
         for cand in p.simplify(&case) {
-            if budget == 0 {
+            if budget == 0 || started.elapsed().as_secs() > max_s {
                 break 'outer;
             }
             budget -= 1;
@@ -466,6 +469,8 @@ fn run_shard<P: Property>(
         failure_persistence: None,
         rng_seed: RngSeed::Fixed(seed),
         max_shrink_iters: p.max_shrink_iters(tier),
+        // effort limit of proptest's shrinker (milliseconds), not a verdict
+        max_shrink_time: tier.pick(180_000, 900_000),
         max_global_rejects: 1 << 30,
         verbose: 0,
         ..Config::default()
